@@ -47,7 +47,12 @@ def translate():
     # the conversion entry points (impl From / TryFrom between byte strings, Encoding and Element)
     cout = os.path.join(LEAN, 'Decaf', 'Generated', 'ConvForms.lean')
     rc4, log4 = sh([sys.executable, os.path.join(VERIF, 'translator', 'extract_convforms.py'), REPO, cout])
-    return rc4 == 0, (log.strip() + '; ' + log2.strip() + '; ' + log3.strip() + '; ' + log4.strip())
+    if rc4 != 0:
+        return False, (log.strip() + '; ' + log2.strip() + '; ' + log3.strip() + '; ' + log4.strip())
+    # the lazily evaluated gadget variable (lazy.rs), executed symbolically in each of its three states
+    lout = os.path.join(LEAN, 'Decaf', 'Generated', 'Lazy.lean')
+    rc5, log5 = sh([sys.executable, os.path.join(VERIF, 'translator', 'extract_lazy.py'), REPO, lout])
+    return rc5 == 0, (log.strip() + '; ' + log2.strip() + '; ' + log3.strip() + '; ' + log4.strip() + '; ' + log5.strip())
 
 
 def formula_status():
@@ -55,6 +60,10 @@ def formula_status():
         d = json.load(open(os.path.join(LEAN, 'Decaf', 'Generated', 'Formulas.index.json')))
     except (OSError, ValueError):
         d = {}
+    try:
+        d.update(json.load(open(os.path.join(LEAN, 'Decaf', 'Generated', 'Lazy.index.json')))['functions'])
+    except (OSError, ValueError, KeyError):
+        pass
     try:
         o = json.load(open(os.path.join(LEAN, 'Decaf', 'Generated', 'OpForms.index.json')))
         d['opforms'] = dict(status='translated %s group operator forms %s and %s field operator forms %s'
@@ -487,7 +496,7 @@ def main():
                 'translator/extract_formulas.py (Rust statement/expression subset -> Lean; the field-API primitives it maps '
                 '(+ - * square abs is_negative, from_bytes_checked/deserialize_compressed, sqrt_ratio_zeta as the parameter sr; ark-r1cs-std gadget primitives; '
                 'the two square-root tables by name; u64 counters as naturals) are taken by contract)',
-                'translator/extract_opforms.py and extract_convforms.py (impl blocks of the operator and conversion forms, read on denotations; '
+                'translator/extract_opforms.py, extract_convforms.py and extract_lazy.py (impl blocks of the operator and conversion forms, read on denotations; lazy.rs by symbolic execution in each state; '
                 'assume-guarantee over the forwarding graph)',
                 'correspondence harness + driver (differential testing of the model against the crate)'],
             theorems=thm_names[:400],
